@@ -364,6 +364,35 @@ func c14Run(ctx *core.Ctx, msize uint32, dotu bool, thorough bool) core.Result {
 			}
 		}
 		_ = wf.Close()
+		// ---- an existing file rewritten through a truncating open (every open mode that can write, with OTRUNC): the
+		// file then holds exactly what was written, nothing of its former content
+		for _, om := range []uint8{go9p.OWRITE | go9p.OTRUNC, go9p.ORDWR | go9p.OTRUNC, go9p.OWRITE, go9p.ORDWR} {
+			old, _ := os.ReadFile(whost)
+			tf, err := c.FOpen(wname, om)
+			res.Evals++
+			if err != nil {
+				fail(fmt.Sprintf("open-failed;mode%#x", om), fmt.Sprintf("FOpen(%s, %#x): %v", wname, om, err), nil)
+				continue
+			}
+			nd := len(old) / 3
+			if nd == 0 {
+				nd = 1
+			}
+			data := r.Bytes(nd)
+			m, werr := tf.Written(data, 0)
+			_ = tf.Close()
+			want := append([]byte{}, data...)
+			if om&go9p.OTRUNC == 0 && len(old) > len(data) {
+				want = append(want, old[len(data):]...)
+			}
+			hostb, _ := os.ReadFile(whost)
+			if werr != nil || m != len(data) || !bytes.Equal(hostb, want) {
+				fail(fmt.Sprintf("rewrite-differs;mode%#x;%s", om, lc), fmt.Sprintf("a %d-byte file opened with mode %#x and rewritten with %d bytes (Written returned %d, %v) now has %d bytes, expected %d", len(old), om, len(data), m, werr, len(hostb), len(want)), nil)
+			}
+			res.Sig(fmt.Sprintf("rewrite|%d|%v|%s|mode%#x", msize, dotu, lc, om))
+			// bring the file back to a few iounits for the next mode
+			_ = os.WriteFile(whost, content, 0o644)
+		}
 		if li == 3 {
 			res.Sample(map[string]interface{}{"msize": msize, "iounit": iou, "dotu": dotu, "file_length": n, "reads": len(offs), "write_ops": nw})
 		}
